@@ -174,6 +174,17 @@ def summaries(t, m, report):
                         % (ax, np.asarray(got).tolist(), exp.tolist()))
                 else:
                     _cnt('clause:reduce')
+            # an order-sensitive fold: the elements of each vector must arrive in axis order
+            import functools
+            vecs_ = [D[:, j] for j in range(Mm)] if ax == 'sample' else [D[i, :] for i in range(N)]
+            exp_fold = [functools.reduce(lambda a, b: a * 2 + b, [float(x) for x in v]) for v in vecs_]
+            ok, got = guard('reduce-fold(%s)' % ax, lambda: t.reduce(lambda a, b: a * 2 + b, ax))
+            if ok:
+                if not _close(got, exp_fold):
+                    bad('reduce:' + ax + ':order', 'reduce(x*2+y, %s)=%r, folding each vector in axis order gives %r'
+                        % (ax, np.asarray(got).tolist(), exp_fold))
+                else:
+                    _cnt('clause:reduce')
             ok, got = guard('reduce-max(%s)' % ax, lambda: t.reduce(lambda a, b: np.maximum(a, b), ax))
             if ok and not _close(got, D.max(axis=0) if ax == 'sample' else D.max(axis=1)):
                 bad('reduce:' + ax, 'reduce(max,%s)=%r disagrees with the matrix' % (ax, np.asarray(got).tolist()))
